@@ -25,6 +25,7 @@ PYVC_MODULES = [
     "contracts.sectors",
     "contracts.constructors",
     "contracts.fermi_ops",
+    "contracts.linalg_bonds",
 ]
 
 BASE = [A_BUILTINS, A_INT, A_TERM, A_NUMPY, A_BOUNDED, A_USER]
@@ -148,7 +149,7 @@ _ALL = {
 _HERE = os.path.dirname(os.path.dirname(os.path.abspath(__file__)))
 PROPERTY_MAP = {}
 NOT_APPLICABLE = {}
-PENDING = ["C01", "C09", "C14"]  # drivers still being written / triaged
+PENDING = []
 for _pid, _pm in _ALL.items():
     if _pid not in PENDING and all(os.path.exists(os.path.join(_HERE, *d.split(".")) + ".py") for d in _pm["bounded"]) and _pid not in os.environ.get("VERIF_DISABLE", "").split(","):
         PROPERTY_MAP[_pid] = _pm
